@@ -17,6 +17,10 @@ import numpy as _np
 CTYPES = r'(?:unsigned\s+)?(?:double|int|long|float|void|object|str|bint|f_type|cc_attributes|size_t|Py_ssize_t|cDOUBLE|cINT|char)'
 
 
+_SCALAR_TYPES = {'double', 'int', 'long', 'float', 'object', 'bint', 'str', 'list', 'dict', 'tuple', 'void', 'char', 'size_t', 'Py_ssize_t', 'bool',
+                 'cDOUBLE', 'cINT', 'f_type', 'unsigned', 'short', 'complex'}
+
+
 class KernelOOB(Exception):
     pass
 
@@ -171,9 +175,63 @@ def _addr(x, idx):
 
 
 class Ref:
-    """&scalar"""
+    """&scalar or &struct (captures the value at the time the address is taken; the kernels never write through it)"""
     def __init__(self, v):
-        self.v = v
+        object.__setattr__(self, 'v', v)
+
+    def __getitem__(self, k):
+        if _as_index(k) != 0:
+            raise KernelOOB('pointer to a scalar indexed with %r' % (k,))
+        return self.v
+
+    def __getattr__(self, name):
+        return getattr(object.__getattribute__(self, 'v'), name)
+
+    def __call__(self, *a, **kw):
+        # &function: a C function pointer, called like the function itself
+        return object.__getattribute__(self, 'v')(*a, **kw)
+
+
+class CStruct:
+    """cdef struct instance: plain attribute bag"""
+    pass
+
+
+class MemView:
+    """what a `def` function of a Cython module hands back when it returns a variable declared as a typed memoryview
+    (`cdef double [:] fint ... return fint`): indexable and convertible to an array (buffer protocol), but WITHOUT arithmetic
+    operators -- `0 + view` is a TypeError in the compiled module, `ndarray + view` and `view + ndarray` work through numpy"""
+    def __init__(self, a):
+        self._a = a
+
+    def __array__(self, dtype=None, copy=None):
+        import numpy as _np
+        return _np.asarray(self._a) if dtype is None else _np.asarray(self._a, dtype=dtype)
+
+    def __getitem__(self, k):
+        return self._a[k]
+
+    def __setitem__(self, k, v):
+        self._a[k] = v
+
+    def __len__(self):
+        return len(self._a)
+
+    def __iter__(self):
+        return iter(self._a)
+
+    shape = property(lambda self: self._a.shape)
+    ndim = property(lambda self: self._a.ndim)
+    size = property(lambda self: self._a.size)
+    base = property(lambda self: self._a)
+    T = property(lambda self: MemView(self._a.T))
+
+    def copy(self):
+        return MemView(self._a.copy())
+
+
+def _memview(a):
+    return a if isinstance(a, (MemView, CArray, Ptr)) or not hasattr(a, 'shape') else MemView(a)
 
 
 def _malloc(n):
@@ -259,7 +317,7 @@ def make_runtime(stats, mode):
             raise DeCythonError('symbolic value assigned to a C int')
 
     return {'_lit': _lit, '_div': _div, '_toint': _toint, '_ld': _ld, '_st': _st, '_addr': _addr,
-            '_malloc': _malloc, 'free': _free, '_carray': _carray, 'prange': prange, '_ref': Ref,
+            '_malloc': _malloc, 'free': _free, '_carray': _carray, 'prange': prange, '_ref': Ref, '_Struct': CStruct, '_memview': _memview,
             'Ptr': Ptr, 'CArray': CArray}
 
 
@@ -424,6 +482,7 @@ def preprocess(src, path=None, info=None):
                 raise DeCythonError('cannot parse cdef: %r' % txt)
             ctype, rest = mt.group('type'), mt.group('rest')
             is_int = _int_type(re.sub(r'\s*\[.*', '', ctype)) and '[' not in ctype
+            is_mv = bool(re.match(r'(?:unsigned\s+)?(?:double|float|int|long)\s*\[[^\]]*:[^\]]*\]$', ctype))
             for d in _split_top(rest):
                 d = d.strip()
                 if not d:
@@ -432,6 +491,7 @@ def preprocess(src, path=None, info=None):
                 parts = _split_top(d, '=')
                 if len(parts) > 1:
                     d, init = parts[0].strip(), '='.join(parts[1:]).strip()
+                ptr_decl = d.startswith('*')
                 d = d.lstrip('*').strip()
                 ma = re.match(r'(\w+)\s*\[(.+)\]$', d)
                 if ma:   # C array
@@ -439,6 +499,10 @@ def preprocess(src, path=None, info=None):
                     continue
                 if not re.fullmatch(r'\w+', d):
                     raise DeCythonError('cannot parse declarator %r in %r' % (d, txt))
+                if init is None and re.fullmatch(r'\w+', ctype) and ctype not in _SCALAR_TYPES and not ptr_decl:
+                    out.append('%s%s = _Struct()' % (ind, d))      # instance of a cdef struct
+                if is_mv and cur_func is not None:
+                    info.setdefault('memviews', {}).setdefault(cur_func, set()).add(d)
                 if is_int and cur_func is not None:
                     info['ints'].setdefault(cur_func, set()).add(d)
                 if is_int and cur_func is None:
@@ -449,6 +513,9 @@ def preprocess(src, path=None, info=None):
             continue
         # statements
         l2 = _subst(l)
+        mr = re.match(r'(\s*)return\s+(\w+)\s*$', l2)
+        if mr and cur_func is not None and cur_func not in info['cfuncs'] and mr.group(2) in info.get('memviews', {}).get(cur_func, ()):
+            l2 = '%sreturn _memview(%s)' % (mr.group(1), mr.group(2))     # a def function returning a typed memoryview
         out.append(l2)
         i += 1
     return '\n'.join(out), info
